@@ -15,6 +15,7 @@ import (
 	"sort"
 	"strings"
 	"sync"
+	"sync/atomic"
 	"syscall"
 	"time"
 )
@@ -109,11 +110,11 @@ type ActionKind int
 
 // Actions.
 const (
-	Proceed ActionKind = iota
-	Fail               // return Errno, operation not executed
-	Partial            // write: first Bytes bytes land, Errno returned
-	Kill               // process killed before the operation
-	TornKill           // write: first Bytes bytes land, then the process is killed
+	Proceed  ActionKind = iota
+	Fail                // return Errno, operation not executed
+	Partial             // write: first Bytes bytes land, Errno returned
+	Kill                // process killed before the operation
+	TornKill            // write: first Bytes bytes land, then the process is killed
 )
 
 // Action is a fault decision.
@@ -146,7 +147,7 @@ type FS struct {
 	procs   map[string]*Proc
 	nextIno int
 	tmpSeq  uint64
-	kills   int
+	kills   atomic.Int64
 
 	// Yield, when set, is called before each operation outside the lock. The scheduler parks the
 	// calling goroutine there.
@@ -358,7 +359,7 @@ func (f *FS) begin(p *Proc, kind OpKind, sub, sub2 string, n int) (op *Op, act A
 func (f *FS) kill(p *Proc) {
 	p.Frozen = true
 	p.Killed = true
-	f.kills++
+	f.kills.Add(1)
 	if f.LogOps {
 		p.Log = append(p.Log, "  KILLED")
 	}
@@ -409,9 +410,9 @@ func killCount() int {
 	if f == nil {
 		return 0
 	}
-	f.mu.Lock()
-	defer f.mu.Unlock()
-	return f.kills
+	// read without the lock: this runs in a deferred function of a simulated process and must
+	// work when that process panicked inside an operation (lock held)
+	return int(f.kills.Load())
 }
 
 // ProcPanic is a panic raised inside a simulated process, with the stack it was raised on.
